@@ -7,7 +7,7 @@
 From Coq Require Import List String Bool Permutation.
 From Coq Require Import Floats.PrimFloat.
 From PAFC01 Require Import ModelTree Model Proofs2 Proofs3.
-From PAFC08 Require Import Model Lib Proofs1 Proofs2 Proofs3 Proofs4 Proofs5 Proofs6 Proofs7 Witness.
+From PAFC08 Require Import Model Lib Proofs1 Proofs2 Proofs3 Proofs4 Proofs5 Proofs6 Proofs7 Proofs8 Witness.
 Import ListNotations.
 
 (* ---- one round trip (any of the three forms) succeeds and yields an equivalent model; PARTIAL: under
@@ -45,6 +45,23 @@ Theorem C08_iter_fixed : forall (V : Type) (falsy : V -> bool) (fs : list form) 
   consistent V n -> plain V n = true ->
   exists n', rt_seq V falsy cfg_fixed fs n = Ok n' /\ equiv V n n'.
 Proof. exact fixed_sequences. Qed.
+
+(* any configuration containing the four applied repairs; for cfg_next (proposed C08-dict-instance-exact) [plain_cf]
+   admits components without free parameters that carry tuple or extra attributes (they are then written as "model") *)
+Theorem C08_iter_next : forall (V : Type) (falsy : V -> bool) (cf : cfg),
+  fix_db_id cf = true -> fix_loggaussian cf = true -> fix_chain cf = true -> fix_falsy cf = true ->
+  forall (fs : list form) (n : snode V), consistent V n -> plain_cf V cf n = true ->
+  exists n', rt_seq V falsy cf fs n = Ok n' /\ equiv V n n'.
+Proof. exact full_sequences. Qed.
+
+Theorem C08_zero_prior_next :
+  plain_cf float cfg_next w_zero_tuple = true /\ plain_cf float cfg_next w_zero_extra = true /\
+  (exists n', dict_rt float ffalsy cfg_next w_zero_tuple = Ok n' /\
+     ival_eqb (inst_from_paths float fbin (tree float n') [(["h"; "a"]%string, 0.5%float)])
+              (inst_from_paths float fbin (tree float w_zero_tuple) [(["h"; "a"]%string, 0.5%float)]) = true) /\
+  (exists n', dict_rt float ffalsy cfg_next w_zero_extra = Ok n' /\
+     snode_eqb (smap float (forget_f float) (norm float n')) (smap float (forget_f float) (norm float w_zero_extra)) = true).
+Proof. exact zero_prior_next. Qed.
 
 (* ---- what equivalence means, in the terms of C01 ---- *)
 (* same parameter paths (in walk order; as advertised by model.paths up to order) *)
@@ -105,11 +122,11 @@ Proof. exact db_pinned_tree. Qed.
    included): the stateful dict decoder computes the declarative image of the model under its final
    lookup table; the database codec computes the image with every prior under its own id ---- *)
 Theorem C08_dict_image : forall (V : Type) (falsy : V -> bool) (cf : cfg) (n : snode V),
-  forall_nodes V (fun m => match dict_pre V m with None => true | Some _ => false end) n = true ->
-  ok_all V cf (vocc V (as_instance V) n) ->
-  exists st', dict_rt V falsy cf n = Ok (pmap V (look V st') (dict_filter V falsy cf) (as_instance V) (dict_post V) n) /\
-              inv V st' /\ covers V st' (vocc V (as_instance V) n) /\
-              from V (mkd V [] (fresh_base V n)) st' (vocc V (as_instance V) n).
+  forall_nodes V (fun m => match dict_pre V cf m with None => true | Some _ => false end) n = true ->
+  ok_all V cf (vocc V (as_instance V cf) n) ->
+  exists st', dict_rt V falsy cf n = Ok (pmap V (look V st') (dict_filter V falsy cf) (as_instance V cf) (dict_post V cf) n) /\
+              inv V st' /\ covers V st' (vocc V (as_instance V cf) n) /\
+              from V (mkd V [] (fresh_base V n)) st' (vocc V (as_instance V cf) n).
 Proof. exact dict_image. Qed.
 
 Theorem C08_db_image : forall (V : Type) (cf : cfg) (n : snode V),
